@@ -217,7 +217,7 @@ inst!(b_twoway_fwd_4_8, [props=C12 xprops=C05+C14 tier=thorough cfg=x86std t=360
 inst!(b_twoway_rev_4_8, [props=C12 xprops=C05+C14 tier=thorough cfg=x86std t=5400 role=twoway-rev uw=@TW:4:8;oracle:6], 4, blocks::twoway::<4, 8>(true, 4));
 inst!(b_twoway_fwd_5_10, [props=C12 xprops=C05+C14 tier=thorough cfg=x86std t=7200 role=twoway-fwd uw=@TW:5:10;oracle:7], 4, blocks::twoway::<5, 10>(false, 5));
 inst!(b_twoway_fwd_alpha_6_12, [props=C12 xprops=C14 tier=thorough cfg=x86std t=7200 role=twoway-fwd-small-alphabet], 14, blocks::twoway_alpha::<6, 12>(false));
-inst!(b_twoway_rev_alpha_6_12, [props=C12 xprops=C14 tier=thorough cfg=x86std t=7200 role=twoway-rev-small-alphabet], 14, blocks::twoway_alpha::<6, 12>(true));
+inst!(b_twoway_rev_alpha_6_12, [props=C12 xprops=C14 tier=manual cfg=x86std t=7200 role=twoway-rev-small-alphabet], 14, blocks::twoway_alpha::<6, 12>(true));
 inst!(b_rk_fwd_3_8, [props=C12+C05 xprops=C14 tier=quick cfg=x86std+generic t=1500 role=rabinkarp-fwd uw=is_equal_raw:3;Hash:6;rabinkarp::Finder::new:6;rabinkarp::FinderRev::new:6;find_raw:12;rfind_raw:12;oracle:6], 4, blocks::rabinkarp::<3, 8>(false, 0));
 inst!(b_rk_rev_3_8, [props=C12+C05 xprops=C14 tier=quick cfg=x86std+generic t=1500 role=rabinkarp-rev uw=is_equal_raw:3;Hash:6;rabinkarp::Finder::new:6;rabinkarp::FinderRev::new:6;find_raw:12;rfind_raw:12;oracle:6], 4, blocks::rabinkarp::<3, 8>(true, 0));
 inst!(b_rk_fwd_33, [props=C12+C14 xprops=C05 tier=quick cfg=x86std t=1500 role=rabinkarp-long], 35, blocks::rabinkarp_long::<33, 35>(false));
@@ -473,7 +473,7 @@ inst!(m_finder_n4_sse2_36, [props=C03 xprops=C05+C14 tier=thorough cfg=x86std t=
 // mode 2 = AVX2: the AVX2 finder falls back to its SSE2 half below 32+index bytes
 inst!(m_finder_n2_avx2_36, [props=C03 xprops=C05+C14 tier=thorough cfg=x86std t=1800 role=finder-packed-avx2 uw=@RK;@TWNEW;@TWOFF;with_ranker:6;oracle:6;@PP32], 3,
     meta::finder::<2, 36>(2, 30, 36));
-inst!(m_finder_n3_avx2_66, [props=C03 xprops=C05+C14 tier=thorough cfg=x86std t=5400 role=finder-packed-avx2 uw=@RK;@TWNEW;@TWOFF;with_ranker:6;oracle:6;@PP32], 3,
+inst!(m_finder_n3_avx2_66, [props=C03 xprops=C05+C14 tier=manual cfg=x86std t=5400 role=finder-packed-avx2 uw=@RK;@TWNEW;@TWOFF;with_ranker:6;oracle:6;@PP32], 3,
     meta::finder::<3, 66>(2, 0, 66));
 // one-byte needle -> memchr
 inst!(m_finder_n1, [props=C03 xprops=C14 tier=quick cfg=x86std+generic t=1800 role=finder-one-byte uw=@RK;@TWNEW;@TWOFF;with_ranker:6;oracle:6;@MEMCHR], 3,
@@ -492,11 +492,11 @@ inst!(m_finder_rev_n3_tw, [props=C04 xprops=C05+C14 tier=thorough cfg=x86std t=5
 // no SIMD available on x86 (mode 0): Two-Way + the portable prefilter
 inst!(m_finder_n2_nosimd_rk, [props=C03 xprops=C05+C14 tier=quick cfg=generic t=1800 role=finder-nosimd-rabinkarp uw=@RK;@TWNEW;@TWOFF;with_ranker:6;oracle:6;find_prefilter.0:2;@MEMCHR], 3,
     meta::finder::<2, 9>(0, 0, 9));
-inst!(m_finder_n2_nosimd_tw, [props=C03 xprops=C05+C14 tier=thorough cfg=generic t=7200 role=finder-nosimd-twoway-prefilter uw=@RK;@TW:2:17;with_ranker:6;oracle:6;find_prefilter.0:19;@MEMCHR], 3,
+inst!(m_finder_n2_nosimd_tw, [props=C03 xprops=C05+C14 tier=manual cfg=generic t=7200 role=finder-nosimd-twoway-prefilter uw=@RK;@TW:2:17;with_ranker:6;oracle:6;find_prefilter.0:19;@MEMCHR], 3,
     meta::finder::<2, 17>(0, 16, 17));
 
 inst!(b_rk_fwd_4_10, [props=C12 xprops=C05+C14 tier=thorough cfg=x86std t=5400 role=rabinkarp-fwd uw=is_equal_raw:3;Hash:6;rabinkarp::Finder::new:6;rabinkarp::FinderRev::new:6;find_raw:12;rfind_raw:12;oracle:6], 4, blocks::rabinkarp::<4, 10>(false, 0));
-inst!(b_rk_rev_4_10, [props=C12 xprops=C05+C14 tier=thorough cfg=x86std t=5400 role=rabinkarp-rev uw=is_equal_raw:3;Hash:6;rabinkarp::Finder::new:6;rabinkarp::FinderRev::new:6;find_raw:12;rfind_raw:12;oracle:6], 4, blocks::rabinkarp::<4, 10>(true, 0));
+inst!(b_rk_rev_4_10, [props=C12 xprops=C05+C14 tier=manual cfg=x86std t=5400 role=rabinkarp-rev uw=is_equal_raw:3;Hash:6;rabinkarp::Finder::new:6;rabinkarp::FinderRev::new:6;find_raw:12;rfind_raw:12;oracle:6], 4, blocks::rabinkarp::<4, 10>(true, 0));
 inst!(m_oneshot_fwd_4_10, [props=C03 xprops=C05+C14 tier=thorough cfg=x86std t=5400 role=memmem-find-oneshot uw=is_equal_raw:3;Hash:6;rabinkarp::Finder::new:6;rabinkarp::FinderRev::new:6;find_raw:12;rfind_raw:12;oracle:6], 4, meta::oneshot::<4, 10>(false));
 inst!(m_oneshot_rev_4_10, [props=C04 xprops=C05+C14 tier=thorough cfg=x86std t=5400 role=memmem-rfind-oneshot uw=is_equal_raw:3;Hash:6;rabinkarp::Finder::new:6;rabinkarp::FinderRev::new:6;find_raw:12;rfind_raw:12;oracle:6], 4, meta::oneshot::<4, 10>(true));
 
